@@ -318,16 +318,21 @@ impl<T> Mutex<T> {
 
   #[inline]
   pub(crate) fn lock(&self) -> shuttle::sync::MutexGuard<'_, T> {
-    self.0.lock().unwrap()
+    // parking_lot has no poisoning: a panic while the lock was held leaves it usable
+    self.0.lock().unwrap_or_else(|e| e.into_inner())
   }
 
   #[inline]
   pub(crate) fn try_lock(&self) -> Option<shuttle::sync::MutexGuard<'_, T>> {
-    self.0.try_lock().ok()
+    match self.0.try_lock() {
+      Ok(g) => Some(g),
+      Err(std::sync::TryLockError::Poisoned(e)) => Some(e.into_inner()),
+      Err(std::sync::TryLockError::WouldBlock) => None,
+    }
   }
 
   #[inline]
   pub(crate) fn get_mut(&mut self) -> &mut T {
-    self.0.get_mut().unwrap()
+    self.0.get_mut().unwrap_or_else(|e| e.into_inner())
   }
 }
